@@ -365,3 +365,30 @@ package callbacks
 //@   tags C05 C13
 //@   assumes ghost-state-starts-closed: writePipeline == 0
 //@   ensures last-pipeline-closed: writePipeline == 1 ==> commitRegistered == 1
+
+//@ # ---------- C09: key conditions come from the values that carry the keys ----------
+//@ # "Only rows matching the chain's conditions and the model value's primary key change", and a chain whose only
+//@ # condition is the key given through Model(...) has a condition. Delete derives a key condition first from the
+//@ # value being deleted and then, when Model names a different value, from the Model value; each condition is added
+//@ # only when key values were found. Update adds a key condition only for a record whose key is set.
+//@ ghost keyLookups
+//@ event call schema.GetIdentityFieldValuesMap
+//@   in callbacks.Delete$1
+//@   do keyLookups = keyLookups + 1
+//@ site delete-keys-from-value-then-model
+//@   match call schema.GetIdentityFieldValuesMap
+//@   in callbacks.Delete$1
+//@   min-sites 2
+//@   entry keyLookups == 0
+//@   assert first-the-deleted-value: keyLookups == 0 ==> arg1 == db.Statement.ReflectValue [C09]
+//@   assert then-the-model-value: keyLookups >= 1 ==> ref(arg1.ptr) == uf("payloadRef", boxof(db.Statement.Model)) [C09]
+//@ site key-condition-only-with-key-values
+//@   match call gorm.(*Statement).AddClause
+//@   in callbacks.Delete$1
+//@   min-sites 3
+//@   assert key-values-found: is(arg1, clause.Where) ==> len(values) > 0 [C09]
+//@ site update-key-condition-only-for-a-set-key
+//@   match call gorm.(*Statement).AddClause
+//@   in callbacks.ConvertToAssignments
+//@   min-sites 3
+//@   assert record-has-the-key: !isZero [C09]
